@@ -498,6 +498,39 @@ def finish_reachable_rule(chk, prog):
     return n
 
 
+def end_means_end_rule(chk, prog):
+    """K1-end: a wrapper answers XFRM_STREAM_END only when the library said that the compressed stream (frame) is complete:
+    the return of END is control dependent on the library call's own result.  Otherwise a stream whose tail is missing is
+    declared complete as soon as the input runs out."""
+    from ..errflow import ret_sources
+    LIB = ("deflate", "inflate", "lzma_code", "BZ2_bzCompress", "BZ2_bzDecompress", "ZSTD_compressStream2", "ZSTD_decompressStream",
+           "ZSTD_compressStream", "ZSTD_endStream")
+    n = 0
+    for f in prog.slot_impls(("struct.xfrm_stream_t", "process_data")):
+        if isinstance(f, ExternFn) or f.decl:
+            continue
+        f.build()
+        chk.analysed(f)
+        libcalls = [c for c in f.calls() if norm_callee(c.callee) in LIB]
+        inst = "%s:%s" % (f.unit.src.split("/")[-1], f.name)
+        for (v, b) in ret_sources(f):
+            w = strip_casts(v)
+            if not (w.is_const and w.is_int and w.sval == 1):
+                continue
+            n += 1
+            dep = False
+            for (cond, outcome, br) in f.guards_at(b):
+                sl = backward_slice(cond, phi_control=True, limit=300)
+                if any(x in libcalls for x in sl):
+                    dep = True
+            if dep:
+                chk.ok("K1-end", inst, b.term, "END is answered under a condition on the library's own result")
+            else:
+                chk.violation("K1-end", inst, b.term, "XFRM_STREAM_END is answered as soon as the input is used up in a flushing mode, "
+                              "without looking at what the library returned: a frame whose end is missing is declared complete")
+    return n
+
+
 def truncated_rule(chk, prog):
     """K1-truncated: when the wrapped (compressed) stream is at its end, the decompressing stream reports a regular end of
     file only if the codec has finished its member: there is an error return that depends on both 'wrapped stream at end'
@@ -621,6 +654,8 @@ def run(chk):
     pending_invariant_rule(chk, load_program("sqfs2tar"))
     truncated_rule(chk, prog)
     chk.floor("K1-truncated", 1)
+    end_means_end_rule(chk, prog)
+    chk.floor("K1-end", 4)
     finish_reachable_rule(chk, load_program("sqfs2tar"))
     chk.floor("K1-finish", 4)
     error_now_rule(chk, load_program("tar2sqfs"))
